@@ -58,7 +58,9 @@ func (ctx *Ctx) cloop(node *node, tpl *Tpl, w io.Writer) {
 
 		// Write separator.
 		if c > 0 && len(node.loopSep) > 0 {
-			_, _ = w.Write(node.loopSep)
+			if _, ctx.Err = w.Write(node.loopSep); ctx.Err != nil {
+				return
+			}
 		}
 		c++
 		// Loop over child nodes with square brackets check in paths.
